@@ -1101,3 +1101,69 @@ fn diskslice_write_faults() {
     kani::cover!(dev.fault_fired);
     kani::cover!(sel == 3);
 }
+
+
+/// contract stub of FsInfoSector::deserialize (contract proved by fsinfo_parse): Ok with any count, a hint that is
+/// never 0 or 1, and a CLEAR write-back latch; or CorruptedFileSystem
+pub(crate) fn stub_fsinfo_deserialize<R: Read>(_rdr: &mut R) -> Result<FsInfoSector, Error<R::Error>> {
+    if kani::any() {
+        let hint: Option<u32> = if kani::any() { Some(kani::any()) } else { None };
+        if let Some(h) = hint {
+            kani::assume(h >= 2 && h != 0xFFFF_FFFF);
+        }
+        let count: Option<u32> = if kani::any() { Some(kani::any()) } else { None };
+        if let Some(c) = count {
+            kani::assume(c != 0xFFFF_FFFF);
+        }
+        Ok(FsInfoSector { free_cluster_count: count, next_free_cluster: hint, dirty: false })
+    } else {
+        Err(Error::CorruptedFileSystem)
+    }
+}
+
+// @obl props=C07,C13 tier=quick fns=FileSystem::new,BootSector::validate,FsInfoSector::validate_and_fix timeout=900
+// @desc FileSystem::new with the two sector decoders replaced by their contracts (ANY decoded boot sector, ANY decoded FS-info), strict and non-strict, write-forbidden device: Ok or Err(CorruptedFileSystem); never panics or overflows; never writes; on Ok the cached FAT type / first data sector / root sectors / cluster count are the BPB-derived ones (whose correctness is validate_sound / derived_equal_independent); the FS-info write-back latch is CLEAR (so a read-only session ending in unmount writes nothing); the cached free count is dropped if the dirty bit was set and is otherwise <= total clusters; the hint lies in [2, total+2]; FAT12/16 volumes carry no FS-info values; the in-memory status flags are the decoded status byte
+#[kani::proof]
+#[kani::unwind(6)]
+#[kani::stub(crate::boot_sector::BootSector::deserialize, crate::boot_sector::verif_kani::stub_boot_deserialize)]
+#[kani::stub(FsInfoSector::deserialize, stub_fsinfo_deserialize)]
+fn new_modular() {
+    let dev = NdDev::read_only();
+    let mut o = opts(false, SymTime::fixed());
+    o.strict = kani::any();
+    let r = FileSystem::new(dev, o);
+    match &r {
+        Ok(fs) => {
+            // (that an accepted BPB satisfies wf_bpb and that the bpb helpers equal the independent derivation are
+            // the obligations validate_sound / derived_equal_independent; here: what `new` caches and latches)
+            assert!(fs.total_clusters == fs.bpb.total_clusters() && fs.first_data_sector == fs.bpb.first_data_sector());
+            assert!(fs.root_dir_sectors == fs.bpb.root_dir_sectors());
+            assert!(fs.fat_type == FatType::from_clusters(fs.total_clusters));
+            let fat32 = fs.bpb.is_fat32();
+            assert!((fs.fat_type == FatType::Fat32) == fat32);
+            let info = fs.fs_info.borrow();
+            assert!(!info.dirty);
+            assert!(fs_info_in_range(&info, fs.total_clusters));
+            if fs.bpb.reserved_1 & 1 != 0 {
+                assert!(info.free_cluster_count.is_none());
+            }
+            if !fat32 {
+                assert!(info.free_cluster_count.is_none() && info.next_free_cluster.is_none());
+            }
+            assert!(fs.current_status_flags.get() == FsStatusFlags::decode(fs.bpb.reserved_1));
+            let d = fs.disk.borrow();
+            assert!(d.nwrites == 0);
+            if fat32 {
+                // the FS-info sector is read from fs_info_sector * bytes_per_sector
+                assert!(d.log[d.nlog - 1] == Op::Seek(fs.bpb.fs_info_sector as u64 * fs.bpb.bytes_per_sector as u64));
+            }
+        }
+        Err(e) => assert!(matches!(e, Error::CorruptedFileSystem)),
+    }
+    kani::cover!(matches!(&r, Ok(fs) if fs.fat_type == FatType::Fat32 && fs.bpb.reserved_1 & 1 != 0));
+    kani::cover!(matches!(&r, Ok(fs) if fs.fat_type == FatType::Fat12));
+    kani::cover!(r.is_err());
+    if let Ok(fs) = r {
+        core::mem::forget(fs);
+    }
+}
